@@ -41,7 +41,8 @@ META = {
 TYPES = ["list", "dict", "set", "deque", "deque-bounded"]
 #: part B also uses a list whose items are ints, floats, None, nested lists and dicts, so that an element-wise
 #: in-place rewrite (e.g. items replaced by their str()) is visible to the type-sensitive comparison
-B_TYPES = TYPES + ["list-mixed"]
+#: ... and lists whose items are NOT in key order (dicts / lists / strings to sort or group by "k", "n", 0, 1)
+B_TYPES = TYPES + ["list-mixed", "list-of-dicts", "list-of-lists", "list-of-strings"]
 
 
 def fresh(tname):
@@ -55,6 +56,12 @@ def fresh(tname):
         return collections.deque([2, 0, 1])
     if tname == "deque-bounded":
         return collections.deque([2, 0, 1], maxlen=4)
+    if tname == "list-of-dicts":
+        return [{"k": 2, "n": "b"}, {"k": 1, "n": "c"}, {"k": 2, "n": "a"}, {"k": 0, "n": "d"}]
+    if tname == "list-of-lists":
+        return [[2, "b"], [1, "c"], [2, "a"], [0, "d"]]
+    if tname == "list-of-strings":
+        return ["b", "C", "a", "B"]
     if tname == "dict-str":
         return {"k": 1, "a": [5], "flag": False}
     if tname == "list-mixed":
@@ -64,7 +71,8 @@ def fresh(tname):
 
 def pytype(tname):
     return {"list": list, "dict": dict, "set": set, "deque": collections.deque, "deque-bounded": collections.deque,
-            "list-mixed": list, "dict-str": dict}[tname]
+            "list-mixed": list, "dict-str": dict, "list-of-dicts": list,
+            "list-of-lists": list, "list-of-strings": list}[tname]
 
 
 #: reference table (python library reference, "Mutable Sequence Types", "Mapping Types", "Set Types", collections.deque)
@@ -216,6 +224,71 @@ def method_script(asy, tname, M, route, tup, esc=False):
     )
 
 
+PRIMED_ROUTES = ("direct", "subscript", "attr-filter", "map-attr", "alias-set", "format-field")
+
+
+def prime_plain_sandbox(asy, tname, M):
+    """History step: a NON-immutable SandboxedEnvironment (legitimately) reads and calls the same method name on
+    another object of the same type, along every lookup path, in the same process."""
+    from jinja2.sandbox import SandboxedEnvironment
+
+    env = SandboxedEnvironment(enable_async=asy, cache_size=0)
+    for src in ("{{ x.%s }}" % M, '{{ x["%s"] }}' % M, '{{ x|attr("%s") }}' % M, '{{ [x]|map(attribute="%s")|list }}' % M,
+                '{{ "{0.%s}".format(x) }}' % M, "{{ x.%s() }}" % M, "{{ x.%s(0) }}" % M):
+        sbx.render_code(env, sbx.compile_src(env, src), {"x": fresh(tname)})
+
+
+def history_shard(arg):
+    """Two-environment histories.  These shards run in a worker pool of their own, before anything else, so that
+    within a process the plain sandbox is always the FIRST user of a (type, method) pair."""
+    asy, tname, names = arg
+    core.import_all_jinja()
+    p = core.Part()
+    esc, maxargs = False, 2
+    for M in names:
+        is_mut = M in MUTATING[tname]
+        worst = None
+        if True:
+            # two-environment history: plain sandbox first, immutable sandbox afterwards
+            prime_plain_sandbox(asy, tname, M)
+            for route, fn in ROUTES:
+                if route not in PRIMED_ROUTES:
+                    continue
+                comp = {}
+                for tup in arg_tuples(min(maxargs, 2)):
+                    if route == "format-field" and tup:
+                        continue
+                    k = len(tup)
+                    if k not in comp:
+                        comp[k] = sbx.compile_src(make_env(asy, esc), fn(M, k))
+                    p.evals += 1
+                    src, res, changed, before, after = method_case(asy, tname, M, route, tup, comp[k], esc)
+                    oc = "ok" if res[0] == "ok" else res[1]
+                    p.sig((tname, M, "after-plain", oc))
+                    argtxt = "(" + ", ".join(ARG_VALUES[i][0] for i in tup) + ")"
+                    reached = is_mut and ((res not in (("ok", "<>"), ("ok", "&lt;&gt;"))) if route == "format-field"
+                                          else not (res[0] == "exc" and res[1] == "SecurityError"))
+                    if changed or reached:
+                        rank = (0 if changed else 1, len(tup), route != "direct")
+                        what = (f"changed {', '.join(f'{c}: {describe(before[c])} -> {describe(after[c])}' for c in changed)}"
+                                if changed else f"was handed out (outcome {res!r})")
+                        det = {
+                            "msg": f"[async={asy}] after a plain SandboxedEnvironment used {pytype(tname).__name__}.{M} in the same "
+                                   f"process, the immutable sandbox: {tname} {describe(before['x'])}: {M}{argtxt} via {route} {what}; "
+                                   f"template {src!r} -> {res!r}",
+                            "async": asy, "type": tname, "method": M, "route": route, "args": argtxt, "template": src,
+                            "script": "from checks import c19\n"
+                                      f"c19.prime_plain_sandbox({asy!r}, {tname!r}, {M!r})\n"
+                                      + method_script(asy, tname, M, route, tup, esc).split("\n", 1)[1],
+                        }
+                        sig = f"C19/{'mutated' if changed else 'reachable'}-after-plain-sandbox/{tname}.{M}"
+                        if worst is None or rank < worst[0] or not worst[1].endswith(f"{tname}.{M}"):
+                            worst = (rank, sig, det)
+        if worst:
+            p.violation(worst[1], worst[2])
+    return p
+
+
 def method_shard(arg):
     asy, tname, names, maxargs, esc, route_ids = arg
     core.import_all_jinja()
@@ -296,8 +369,13 @@ def filter_programs(fname, params):
     """all (kind, expression) placements of the container `c` for one filter"""
     out = []
     # container as the value
-    for pre in ["", "0", '"k"', "2, true"]:
+    for pre in ["", "0", '"k"', "2, true", '"n"', "1", '"k", "n"', '"k,n"', "true", '"k", "eq", 2', '"upper"']:
         out.append(("value", "c|%s(%s)" % (fname, pre) if pre else "c|%s" % fname))
+    for kwv in ['attribute="k"', 'attribute="n"', "attribute=0", "attribute=1", 'attribute="k", reverse=true',
+                'attribute="n", case_sensitive=true', "reverse=true", "case_sensitive=true", 'attribute="k,n"',
+                'by="value"', 'attribute="k", default=0']:
+        out.append(("value+kwconst", "c|%s(%s)" % (fname, kwv)))
+        out.append(("value+kwconst", "w[0]|%s(%s)" % (fname, kwv)))
     out.append(("value-nested-literal", "[c]|%s" % fname))
     out.append(("value-nested-context", "w|%s" % fname))
     for kw in sorted(set(params) | {"attribute", "default", "start"}):
@@ -342,7 +420,8 @@ def filter_shard(arg):
             comp = sbx.compile_src(make_env(asy, esc), filter_template(expr))
             if comp[0] != "code":
                 raise core.HarnessError(f"does not compile: {expr!r} {comp}")
-            for tname in B_TYPES:
+            # the unordered lists only matter where the container is the filter's VALUE
+            for tname in (B_TYPES if kind.startswith("value") else B_TYPES[:6]):
                 p.evals += 1
                 try:
                     src, res, changed, before, after = filter_case(asy, tname, expr, comp, esc)
@@ -513,7 +592,7 @@ def partc_shard(arg):
 
 def dispatch(arg):
     kind, payload = arg
-    return {"method": method_shard, "filter": filter_shard, "partc": partc_shard}[kind](payload)
+    return {"method": method_shard, "filter": filter_shard, "partc": partc_shard, "history": history_shard}[kind](payload)
 
 
 def chunks(xs, n):
@@ -546,6 +625,9 @@ def run(ctx: core.Ctx):
             # autoescape on: attribute access does not depend on it; quick keeps three routes, thorough all
             for c in chunks(public, 6):
                 shards.append((asy, tname, c, 2, True, ESC_ROUTES_QUICK if ctx.quick else None))
+    hist = [("history", (asy, tname, c)) for tname in TYPES for asy in (False, True)
+            for c in chunks([n for n in dir(pytype(tname)) if not n.startswith("_")], 4)]
+    ctx.pmap(dispatch, hist)
     fnames = sorted(make_env(False).filters)
     allshards = [("method", sh) for sh in shards]
     allshards += [("filter", (asy, esc, c)) for asy in (False, True) for esc in (False, True) for c in chunks(fnames, 2)]
@@ -557,6 +639,6 @@ def run(ctx: core.Ctx):
         "types": TYPES, "names_per_type": nnames, "arg_values": [a for a, _ in ARG_VALUES], "max_args_public": 2 if ctx.quick else 3,
         "max_args_underscore": 1 if ctx.quick else 2, "routes": len(ROUTES), "filters": len(fnames),
         "filter_value_forms": VALUE_FORMS, "filter_dummies": DUMMIES, "modes": ["sync", "async"], "autoescape": [False, True], "filter_container_types": B_TYPES,
-        "assignment_programs": nprog, "assignment_container_types": C_TYPES,
+        "two_environment_history_routes": list(PRIMED_ROUTES), "assignment_programs": nprog, "assignment_container_types": C_TYPES,
         "method_routes_under_autoescape": list(ESC_ROUTES_QUICK) if ctx.quick else "all",
     }
